@@ -347,6 +347,20 @@ theorem preLeaf_eq_preFieldS (s : Bool) (q : NReq) (P : List Bytes) (f : Field) 
   unfold focus
   simp [hb]
 
+/-- the decoders keep the parent's JSON name exactly for the structs whose fields the unmarshaller promotes (1242bf1) -/
+theorem keepsParentJSON_eq_promoted (hdr : Field) (anon : Bool) : keepsParentJSON hdr anon = promoted hdr anon := by
+  unfold keepsParentJSON promoted structJSONName
+  cases ht : hdr.tags.lookup .json with
+  | none => cases anon <;> simp
+  | some content =>
+    by_cases hd : content = dash
+    · subst hd
+      have : (headComma dash).1 ≠ [] := by decide
+      cases anon <;> simp [this]
+    · by_cases hh : (headComma content).1 = []
+      · cases anon <;> simp [hd, hh]
+      · cases anon <;> simp [hd, hh]
+
 /-- every field well-formed (`FieldWF`); struct-typed fields without `required` and without a default, and not an
 embedded struct whose fields the unmarshaller promotes (class `embedded-json-path`) -/
 def ForestWF : Forest → Prop
@@ -679,7 +693,7 @@ theorem runN_forest (q : NReq) : ∀ (t : Forest) (pidx : Path) (P : List Bytes)
     have hcomp : compileN pidx P i (.strct hdr anon kids rest) ++ more =
         { parentIdx := pidx, index := i, jparent := P, dec := compileField hdr, isStruct := true } ::
           (compileN (pidx ++ [i]) (P ++ [newParentName hdr]) 0 kids ++ (compileN pidx P (i + 1) rest ++ more)) := by
-      simp [compileN]
+      simp [compileN, keepsParentJSON_eq_promoted, hprom]
     rw [hcomp]
     simp only [specForest, hprom, Bool.false_eq_true, if_false]
     rw [runN_cons_struct q _ _ _ rfl, hrun]
